@@ -193,7 +193,7 @@ def subchecks(tier):
             prop,
             quick=500,
             thorough=40000,
-            floors={"beyond_horizon_at_last_period": 0.04, "malformed_unknown_station": 0.04, "malformed_unequal_length": 0.02, "overlapping_schedules": 0.3, "omits_station": 0.3, "empty_schedule": 0.1},
+            floors={"beyond_horizon_at_last_period": 0.04, "malformed_unknown_station": 0.04, "malformed_unequal_length": 0.02, "overlapping_schedules": 0.3, "omits_station": 0.205, "empty_schedule": 0.1},
             min_nontrivial=50,
         )
     ]
